@@ -18,7 +18,7 @@ def Scalar (c : Nat) : Prop := c < 0xD800 ∨ (0xE000 ≤ c ∧ c < 0x110000)
 instance (c : Nat) : Decidable (Scalar c) := by unfold Scalar; exact inferInstance
 
 inductive Err where
-  | type | value | overflow | attr | syntax
+  | type | value | overflow | attr | syntax | index
 deriving DecidableEq, Repr, Inhabited
 
 /-- an optional integer argument: absent, `None`, or an (unbounded) int -/
@@ -190,6 +190,25 @@ def strMul (s : Str) (n : Int) : Res := .ok (.str ((List.replicate n.toNat s).fl
 
 def strIter (s : Str) : List Str := s.map fun c => [c]
 
+/-- `s[i]`: negative indices count from the end; out of range is an IndexError; the result is a one-character string -/
+def strGetItem (s : Str) (i : Int) : Res :=
+  let n : Int := s.length
+  let j := if i < 0 then i + n else i
+  if j < 0 ∨ j ≥ n then .error .index else .ok (.str ((s.drop j.toNat).take 1))
+
+/-- a bound of `s[a:b]`: None gives the default, negative counts from the end, clipped to 0..len -/
+def bound (a : Arg) (dflt n : Int) : Int :=
+  match a with
+  | .int v => min (max (if v < 0 then v + n else v) 0) n
+  | _ => dflt
+
+/-- `s[a:b]` -/
+def strGetSlice (s : Str) (a b : Arg) : Res :=
+  let n : Int := s.length
+  let i := bound a 0 n
+  let j := bound b n n
+  .ok (.str ((s.drop i.toNat).take (j - i).toNat))
+
 /-- `chr(i)`: any code point 0..0x10FFFF, surrogates included -/
 def chr (a : Arg) : Res :=
   match a with
@@ -203,6 +222,149 @@ def ord (s : Str) : Res :=
   match s with
   | [c] => .ok (.int c)
   | _ => .error .type
+
+/-! ### string and bytes literals (language reference 2.4.1 "String and Bytes literals")
+
+Independent of the Go lexer: written from the lexical grammar
+
+    stringliteral   ::=  [stringprefix](shortstring | longstring)      stringprefix ::= "r" | "u" | "R" | "U"
+    bytesliteral    ::=  bytesprefix(shortbytes | longbytes)           bytesprefix  ::= "b" | "B" | "br" | "Br" | "bR" | "BR" | "rb" | "rB" | "Rb" | "RB"
+    shortstring     ::=  "'" shortstringitem* "'" | '"' shortstringitem* '"'
+    shortstringitem ::=  shortstringchar | stringescapeseq
+    shortstringchar ::=  <any source character except "\" or newline or the quote>
+    stringescapeseq ::=  "\" <any source character>
+
+and the table of escape sequences.  Scope: ONE short (single-quoted) literal that is the whole
+logical line; `none` = outside this specification (triple-quoted forms, backslash-newline
+continuation, text after the closing quote, `\N{name}` in a str literal).  Every error CPython
+reports for a literal (EOL while scanning, "(unicode error) truncated \xXX escape",
+"(value error) invalid \x escape", "illegal Unicode character", "bytes can only contain ASCII
+literal characters") is a `SyntaxError`. -/
+
+inductive LitVal where
+  | str (cs : Str)            -- code points
+  | bytes (bs : List Nat)     -- byte values
+deriving DecidableEq, Repr, Inhabited
+
+def octDigit (c : Nat) : Bool := 48 ≤ c ∧ c ≤ 55
+
+/-- value of one hexadecimal digit character `0-9 a-f A-F` -/
+def hexDigit (c : Nat) : Option Nat :=
+  if 48 ≤ c ∧ c ≤ 57 then some (c - 48)
+  else if 97 ≤ c ∧ c ≤ 102 then some (c - 97 + 10)
+  else if 65 ≤ c ∧ c ≤ 70 then some (c - 65 + 10)
+  else none
+
+/-- value of a string consisting of hexadecimal digits only (`acc` = value so far) -/
+def hexNumber : List Nat → Nat → Option Nat
+  | [], acc => some acc
+  | c :: t, acc => match hexDigit c with
+    | some d => hexNumber t (acc * 16 + d)
+    | none => none
+
+/-- the single-character escapes: `\\ \' \" \a \b \f \n \r \t \v` -/
+def simpleEscape (e : Nat) : Option Nat :=
+  if e = 92 then some 92 else if e = 39 then some 39 else if e = 34 then some 34
+  else if e = 97 then some 7 else if e = 98 then some 8 else if e = 102 then some 12
+  else if e = 110 then some 10 else if e = 114 then some 13 else if e = 116 then some 9
+  else if e = 118 then some 11 else none
+
+/-- the items of a non-raw literal body, left to right (`fuel` ≥ length + 1).  Result: the code points
+(str) / byte values (bytes).  Unrecognised escapes stay in the result with their backslash. -/
+def evalEscapes (isBytes : Bool) : Nat → List Nat → Option (Except Err (List Nat))
+  | 0, _ => none
+  | _, [] => some (.ok [])
+  | f + 1, c :: rest =>
+    let cons (x : Nat) (r : Option (Except Err (List Nat))) : Option (Except Err (List Nat)) :=
+      r.map fun e => e.map fun l => x :: l
+    if c ≠ 92 then
+      -- bytes literals may only contain ASCII characters
+      if isBytes ∧ c ≥ 128 then (evalEscapes isBytes f rest).map fun _ => .error .syntax
+      else cons c (evalEscapes isBytes f rest)
+    else match rest with
+      | [] => none                                  -- the backslash escapes whatever follows the body
+      | e :: r =>
+        /- `\x`, `\u`, `\U`: exactly `n` hexadecimal digits must follow -/
+        let hexEscape (n : Nat) : Option (Except Err (List Nat)) :=
+          if r.length < n then (evalEscapes isBytes f r).map fun _ => .error .syntax
+          else match hexNumber (r.take n) 0 with
+            | none => (evalEscapes isBytes f (r.drop n)).map fun _ => .error .syntax
+            | some v =>
+              if v > 0x10FFFF then (evalEscapes isBytes f (r.drop n)).map fun _ => .error .syntax
+              else cons v (evalEscapes isBytes f (r.drop n))
+        let unchanged := cons 92 (evalEscapes isBytes f rest)
+        if e = 10 then evalEscapes isBytes f r        -- backslash-newline is ignored
+        else match simpleEscape e with
+          | some v => cons v (evalEscapes isBytes f r)
+          | none =>
+            if octDigit e then
+              -- up to three octal digits; in a bytes literal the value is taken modulo 256
+              let d2 := (r.take 1).filter octDigit                                       -- a second digit, if there is one
+              let d3 := if d2.isEmpty then [] else ((r.drop 1).take 1).filter octDigit    -- and a third
+              let v := (e :: d2 ++ d3).foldl (fun a d => a * 8 + (d - 48)) 0
+              cons (if isBytes then v % 256 else v) (evalEscapes isBytes f (r.drop (d2.length + d3.length)))
+            else if e = 120 then hexEscape 2
+            else if e = 117 then (if isBytes then unchanged else hexEscape 4)
+            else if e = 85 then (if isBytes then unchanged else hexEscape 8)
+            else if e = 78 ∧ !isBytes then none       -- \N{name}: needs the Unicode database
+            else if isBytes ∧ e ≥ 128 then (evalEscapes isBytes f r).map fun _ => .error .syntax
+            else unchanged
+
+/-- the value of the body of a short literal (the text between the quotes) -/
+def evalLiteral (isBytes raw : Bool) (body : List Nat) : Option (Except Err (List Nat)) :=
+  if raw then
+    if isBytes ∧ body.any (fun c => decide (c ≥ 128)) then some (.error .syntax) else some (.ok body)
+  else evalEscapes isBytes (body.length + 1) body
+
+/-- the items of a short string up to the closing quote: `some (some (body, rest))`;
+`some none` = the line ends first ("EOL while scanning string literal"); `none` = backslash at the very
+end of the line (continuation: the literal goes on on the next line) -/
+def lexShort (q : Nat) : List Nat → List Nat → Option (Option (List Nat × List Nat))
+  | [], _ => some none
+  | [92], _ => none
+  | 92 :: c :: t, body => if c = 10 then none else lexShort q t (body ++ [92, c])
+  | c :: t, body =>
+    if c = q then some (some (body, t))
+    else if c = 10 then some none
+    else lexShort q t (body ++ [c])
+
+/-- literal prefixes of Python 3.4: (isBytes, raw, remaining text) -/
+def litPrefix (text : List Nat) : Option (Bool × Bool × List Nat) :=
+  let lower (c : Nat) := if 65 ≤ c ∧ c ≤ 90 then c + 32 else c
+  let isQ (c : Nat) : Bool := c = 39 ∨ c = 34
+  match text with
+  | [] => none
+  | a :: t =>
+    if isQ a then some (false, false, text)
+    else match t with
+      | [] => none
+      | b :: t' =>
+        if isQ b then
+          (if lower a = 114 then some (false, true, t)          -- r
+           else if lower a = 117 then some (false, false, t)    -- u
+           else if lower a = 98 then some (true, false, t)      -- b
+           else none)
+        else match t' with
+          | [] => none
+          | c :: _ =>
+            if isQ c ∧ ((lower a = 98 ∧ lower b = 114) ∨ (lower a = 114 ∧ lower b = 98)) then some (true, true, t')  -- br / rb
+            else none
+
+/-- the value of a source line that consists of exactly one short string or bytes literal -/
+def evalSource (text : List Nat) : Option (Except Err LitVal) :=
+  match litPrefix text with
+  | none => none
+  | some (isBytes, raw, l) =>
+    match l with
+    | [] => none
+    | q :: t =>
+      if [q, q].isPrefixOf t then none else         -- triple-quoted (or an empty literal followed by another one)
+      match lexShort q t [] with
+      | none => none
+      | some none => some (.error .syntax)
+      | some (some (body, rest)) =>
+        if !rest.isEmpty then none else
+        (evalLiteral isBytes raw body).map fun r => r.map fun v => if isBytes then LitVal.bytes v else LitVal.str v
 
 /-! ### known findings -/
 
